@@ -167,6 +167,45 @@ def run(ctx, model_available=True):
         o2, n2, _ = files.load(None, nodes={}, path=path)
         if o2 != show_registry(pre):
             failures.append({"kind": "oracle", "sig": "C14:missing-file", "desc": f"the file created for a missing file does not hold the current registry: {o2[:200]}", "case": {}})
+    # the same Persistence object over its life: the file disappears (or is damaged) between
+    # a save and the next load: a missing file is created again, a damaged one is the read error
+    from aiomysensors import exceptions as _ex
+    from aiomysensors.persistence import Persistence
+
+    for scenario in ("save-delete-load", "load-delete-load", "save-save-delete-load", "save-damage-load", "stop-delete-load"):
+        reg = {5: Node(5, 17, "2.0", sketch_name="n"), 6: Node(6, 17, "2.1")}
+        lpath = files.path()
+        p = Persistence(reg, lpath)
+        try:
+            if scenario.startswith("load"):
+                files.loop.run_until_complete(p.load())
+            else:
+                files.loop.run_until_complete(p.save())
+            if scenario.startswith("save-save"):
+                files.loop.run_until_complete(p.save())
+            if scenario.startswith("stop"):
+                files.loop.run_until_complete(p.stop())
+            if "damage" in scenario:
+                with open(lpath, "w") as f:
+                    f.write('{"5": {"node_id": 5, "node_ty')
+            else:
+                os.remove(lpath)
+            try:
+                files.loop.run_until_complete(p.load())
+                got = show_registry(reg)
+            except _ex.PersistenceReadError:
+                got = "ERR"
+        except Exception as e:  # noqa: BLE001
+            got = "ESCAPE " + type(e).__name__
+        want = "ERR" if "damage" in scenario else show_registry(reg)
+        exists = os.path.exists(lpath)
+        if got != want or not exists:
+            failures.append({"kind": "oracle", "sig": "C14:missing-file" if "delete" in scenario else "C14:session",
+                             "desc": f"{scenario} on one Persistence object: load gives {got[:100]} (expected {want[:100]}), file exists afterwards: {exists}", "case": {"scenario": scenario}})
+        elif "delete" in scenario:
+            o2, _, _ = files.load(None, nodes={}, path=lpath)
+            if o2 != show_registry(reg):
+                failures.append({"kind": "oracle", "sig": "C14:missing-file", "desc": f"{scenario}: the re-created file does not hold the registry: {o2[:200]}", "case": {"scenario": scenario}})
     dpath = files.path()
     os.mkdir(dpath)
     outcome, _, _ = files.load(None, path=dpath)
